@@ -61,6 +61,23 @@ def r1_from_transition(ctx):
             for s in b["s"]:
                 if s["k"] == "assign" and s["rv"][0] == "agg" and s["rv"][1].get("k") == "closure" and s["rv"][1].get("def") == ck:
                     cl_ok = cl_ok and len(s["rv"][2]) == 1 and sym(f, s["rv"][2][0]) == ("arg", 1)
+    if not (ok and cl_ok):
+        # loop form: for step in range { exemptions.push(get_trace_domain_value_at(n, step)) }
+        from .c03 import for_loops, every_iteration
+        for L in for_loops(f):
+            src = f.slice_of_operand(f.term(L["header"])["a"][0], at=(L["header"], f.INF))
+            if rng[0]["p"][0] not in src["locals"] or (_names(f, src) & TRUNCATING) or "rev" in _names(f, src):
+                continue
+            items = set(L["item_locals"]) | {L["item_local"]}
+            for b2, t2 in _calls(f, "push"):
+                if b2 not in L["own_body"] or not every_iteration(f, L, b2):
+                    continue
+                vec_roots = f._mutref_origins(op_local(t2["a"][0]), f._defs or (f.defs(0) and f._defs), set())
+                val = arg_slice(f, t2, 1)
+                gt = [f.term(b3) for b3 in val["calls"] if _name(f.term(b3)) == "get_trace_domain_value_at"]
+                if len(gt) == 1 and sym(f, gt[0]["a"][0]) == ("arg", 1) and (arg_slice(f, gt[0], 1)["locals"] & items) and \
+                        sym(f, gt[0]["a"][1])[0] == "?" and (vec_roots & ex["locals"]):      # the item itself, no arithmetic on it
+                    ok, cl_ok = True, True
     ctx.ob("R1", "exemption-points-are-domain-values-of-those-steps", ok and cl_ok,
            "exemptions = ((n - k)..n).map(|step| get_trace_domain_value_at(n, step)).collect()" if ok and cl_ok else
            "the exemption points are not get_trace_domain_value_at(n, step) for every step of the range", f, t["sp"]["at"])
